@@ -315,6 +315,9 @@ func main() {
 	for _, d := range env.Decls {
 		if d.Pkg == "" {
 			fmt.Fprintf(&p, "type %s %s\n", d.Name, d.Under.Go(env, ""))
+			if d.Methods != "" {
+				p.WriteString("\n" + gen.MethodSrc(d))
+			}
 		}
 	}
 	var qs []*strings.Builder
@@ -359,6 +362,9 @@ func main() {
 				}
 			}
 		}
+		if d.Methods != "" {
+			flags += "." + d.Methods
+		}
 		fmt.Fprintf(&prelude, "decl %s %s\n", flags, d.Under.Wire())
 	}
 
@@ -381,11 +387,12 @@ func main() {
 		if (want["equal"] || want["compare"] || want["hash"]) && eq {
 			g.emitEqual()
 		}
+		consistent := eq && !gen.HasMethods(env, t)
 		if want["compare"] && gen.SupportedCompare(env, t) {
-			g.emitCompare(eq)
+			g.emitCompare(consistent)
 		}
 		if want["hash"] && gen.SupportedHash(env, t) {
-			g.emitHash(eq)
+			g.emitHash(consistent)
 		}
 		if want["deepcopy"] && gen.SupportedDeepCopy(env, t) {
 			g.emitDeepCopy()
